@@ -346,7 +346,26 @@ pub fn replay(_config: &Value, ops: &[String]) -> Vec<String> {
     let mut m = QuantM::new(vec![], vec![]);
     let mut lines = Vec::new();
     let mut step = 0;
+    let mut expanded: Vec<(String, u64)> = Vec::new();
     for (o, n) in expand_ops(ops) {
+        if o.starts_with('#') {
+            continue;
+        }
+        if let Some(r) = o.strip_prefix("ramp:") {
+            let p: Vec<&str> = r.split(':').collect();
+            let start = parse_f32(p[0]) as f64;
+            let step_uv: f64 = p[1].parse().unwrap();
+            let count: usize = p[2].parse().unwrap();
+            for i in 0..count {
+                let v = ((start + step_uv * 1.0e-6 * i as f64).max(0.0).min(10.0)) as f32;
+                expanded.push((format!("convert:{:?}", v), 1));
+            }
+        } else {
+            expanded.push((o, n));
+        }
+    }
+    let total_ops = expanded.len();
+    for (oi, (o, n)) in expanded.into_iter().enumerate() {
         let op = parse_op(&o);
         for _ in 0..n {
             step += 1;
@@ -368,7 +387,9 @@ pub fn replay(_config: &Value, ops: &[String]) -> Vec<String> {
             for f in &out.flags {
                 l.push_str(&format!("\n        !! {} [{}] {}", f.prop, f.class, f.detail));
             }
-            lines.push(l);
+            if total_ops <= 40 || oi < 4 || oi + 6 >= total_ops || !out.flags.is_empty() || l.contains("!!") {
+                lines.push(l);
+            }
         }
     }
     lines
@@ -890,6 +911,45 @@ fn c09_c19(ctx: &Ctx, props: &[&'static str]) -> Report {
             lc.count("scales", 1);
         }
     });
+    // micro-ramps: the input creeping in steps of a few microvolts across bucket boundaries, window edges and
+    // midpoints (every conversion judged by the window / history-free rule)
+    {
+        let scales: Vec<u16> = vec![0xfff, 0x001, 0b1010_1011_0101, 0x091, 0x800, 0x421];
+        let mut jobs: Vec<(u16, f64, f64, f64)> = Vec::new(); // scale, start, end, step (volts)
+        for &m in &scales {
+            for (oct, semis) in [(0.0f64, 0.0f64), (0.0, 4.0), (2.0, 0.0), (2.0, 6.0), (9.0, 11.0)] {
+                let base = oct + semis / 12.0;
+                for step in [5.0e-6f64, 10.0e-6, 15.0e-6, 40.0e-6] {
+                    jobs.push((m, base - 0.02, base + 0.115, step));
+                    jobs.push((m, base + 0.115, base - 0.02, -step));
+                }
+            }
+        }
+        let jr = &jobs;
+        par_ranges(ctx, &mut rep, jobs.len() as u64, jobs.len() as u64, |_, lo, hi, lc| {
+            let mut fnd: Vec<Finding> = Vec::new();
+            for j in lo..hi {
+                let (mask, a, b, step) = jr[j as usize];
+                let mut q = with_scale(mask);
+                let mut m = QModel { mask, prev: None };
+                let n = ((b - a) / step).abs() as usize;
+                let mut first_v = 0.0f32;
+                for i in 0..=n {
+                    let v = ((a + step * i as f64).max(0.0).min(10.0)) as f32;
+                    if i == 0 {
+                        first_v = v;
+                    }
+                    convert_checked(&mut q, &mut m, v, &mut fnd);
+                    lc.count("micro_ramp_conversions", 1);
+                    if !fnd.is_empty() {
+                        let step_uv = step * 1.0e6;
+                        flush(&mut fnd, pr, lc, || { let mut o = scale_script(mask); o.push(format!("# then convert {:?}, {:?} + {} uV, ... ({} conversions in steps of {} uV)", first_v, first_v, step_uv, i + 1, step_uv)); o.push(format!("ramp:{:?}:{}:{}", first_v, step_uv, i + 1)); o });
+                        break;
+                    }
+                }
+            }
+        });
+    }
     // noise around chromatic boundaries: +-0.05 semitone alternation changes the note at most once
     par_ranges(ctx, &mut rep, 120, 120, |_, lo, hi, lc| {
         let mut fnd: Vec<Finding> = Vec::new();
